@@ -259,6 +259,19 @@ K_TR_IND = [H("k_c18_ind_" + sh, "transient", "inductive step from ANY state of 
 P("C18", "proof", K_TR_IND + [K_TR["3"], K_TR["e3"], K_TR["noop"], K_TR["4"], K_TR["5"]], bounds="3 operations (quick), 4-5 (thorough)",
   outside="fd-backed children are represented by the mock child (a double unregister is ENOENT for Generic: shown natively); "
           "two changes without an intervening re-registration; replace() on an empty wrapper")
+SIG_FNS = ["Signals::new", "Signals::add_signals", "Signals::remove_signals", "Signals::set_signals", "<Signals as Drop>::drop",
+           "<Signals as EventSource>::process_events (+closure)"]
+K_SIG = {
+    "mask": H("k_c19_mask_bookkeeping", "signals", "Signals::new(S) then one symbolic add/remove/set with a symbolic subset, symbolic pending "
+              "signals: blocked set = signalfd mask = configured set; a pending signal configured before and after is never "
+              "delivered by default disposition in between; Drop unblocks", SIG_FNS[:5],
+              "subsets of 3 signals, 1 operation, env/nix model, unwind 5", features=["signals"], timeout_q=900),
+    "report": H("k_c19_report_each_pending_once", "signals", "process_events reports exactly the pending configured signals, each once, "
+                "with its number; others untouched", SIG_FNS[5:], "subsets of 3 signals, symbolic pending set, unwind 5",
+                features=["signals"], timeout_q=900),
+}
+P("C19", "proof", list(K_SIG.values()), bounds="3 signals, 1 operation after new()",
+  outside="real signal delivery, siginfo contents other than the number, multi-threaded processes; real-time signals queueing")
 PROPS["C20"]["k"] = K_TOKEN + [K_SYS["factory"]]
 
 
@@ -381,4 +394,4 @@ addm("C17", [M_IO["io"], M_IO["new"], M_IO["drop"]])
 for _p in ("C03",):
     PROPS[_p]["level"] = "model_checking"
 
-PROPS["DEV"] = dict(level="proof", k=[], m=list(P_Q.values()))
+PROPS["DEV"] = dict(level="proof", k=list(K_SIG.values()), m=[])
